@@ -46,6 +46,7 @@ NodeObs(F, n) ==
   CASE NodeRec(n).kind = "virtual" -> <<>>
     [] NodeRec(n).kind = "dir" -> FlatTree(F, PathOf(n), NodeRec(n).filt)
     [] NodeRec(n).kind = "dirstruct" -> FlatStruct(F, PathOf(n), NodeRec(n).filt)
+    [] IsMutated(n) -> <<Exists(F, PathOf(n))>>            \* a file modified in place: only its existence is anybody's business
     [] OTHER -> <<Info(F, PathOf(n))>>
 ConeState(c, F) == <<[x \in Cone(c) |-> CmdSig(x)], [n \in ConeNodes(c) |-> NodeObs(F, n)]>>
 
@@ -65,21 +66,29 @@ MCInit ==
 
 Spend(f) == budget' = [budget EXCEPT !.steps = @ - 1, ![f] = @ - 1]
 
-MCBuild(k0) ==
+(* the sets of commands a client's delegate may refuse to start in a build (shouldCommandStart); a configuration *)
+(* that explores skipping replaces this definition                                                              *)
+SkipSets == {{}}
+FeedersOf(c) == UNION {Producers(x) : x \in SeqToSet(Cmd(c).ins) \cup SeqToSet(Cmd(c).reads)}
+MCBuild(k0, sk) ==
   /\ budget.builds > 0 /\ Spend("builds")
-  /\ Build(k0)
+  /\ BuildSkip(k0, sk)
   /\ snap0' = snap
-  /\ LET B == DoBuild(k0)
+  /\ LET B == DoBuildSkip(k0, sk)
          okran == {c \in SeqToSet(B.ran) : \E i \in 1..Len(B.status) : B.status[i].c = c /\ B.status[i].s = "Succeeded"}
          badran == SeqToSet(B.ran) \ okran
-     IN snap' = [c \in (DOMAIN snap \cup okran) \ badran |-> IF c \in okran THEN Snap(c, B.fs) ELSE snap[c]]
+         (* a refused command, and the commands fed by it (they ran on - or were left with - what it should have *)
+         (* replaced, and will run again when its node value flips back), are no basis for "nothing changed"    *)
+         tainted == B.dskipped \cup {c \in Cmds : FeedersOf(c) \cap B.dskipped # {}}
+     IN snap' = [c \in ((DOMAIN snap \cup okran) \ badran) \ tainted |-> IF c \in okran THEN Snap(c, B.fs) ELSE snap[c]]
 
+Creatable == Deletable       \* paths a history may (re-)create; a configuration may narrow it
 MCMutate ==
   /\ budget.edits > 0 /\ Spend("edits")
   /\ \/ \E p \in Editable : fs[p].t = "file" /\ Mutate(EditFile(p))
      \/ \E p \in Editable : fs[p].t = "file" /\ Mutate(TouchFile(p))
      \/ \E p \in Deletable : Exists(fs, p) /\ Mutate(DeleteFile(p))
-     \/ \E p \in Deletable : ~Exists(fs, p) /\ (IF fs[p].par = "" THEN TRUE ELSE fs[fs[p].par].t = "dir") /\ Mutate(CreateFile(p))
+     \/ \E p \in Creatable : ~Exists(fs, p) /\ (IF fs[p].par = "" THEN TRUE ELSE fs[fs[p].par].t = "dir") /\ Mutate(CreateFile(p))
   /\ UNCHANGED <<snap, snap0>>
 
 MCSwitch ==
@@ -87,7 +96,7 @@ MCSwitch ==
   /\ \E d2 \in Descs, u \in WithDB : NewFrontend(d2, u) /\ snap' = IF hasdb /\ u THEN snap ELSE <<>>     \* results lost with the database
   /\ UNCHANGED snap0
 
-MCNext == budget.steps > 0 /\ (MCMutate \/ MCSwitch \/ \E k0 \in Targets : MCBuild(k0))
+MCNext == budget.steps > 0 /\ (MCMutate \/ MCSwitch \/ \E k0 \in Targets, sk \in SkipSets : MCBuild(k0, sk))
 MCSpec == MCInit /\ [][MCNext]_mcvars
 
 -----------------------------------------------------------------------------
@@ -96,6 +105,8 @@ MCSpec == MCInit /\ [][MCNext]_mcvars
 NoSpuriousRerun ==
   IsBuild => \A c \in RanSet :
      \/ ExemptFromNull(c) \/ Cmd(c).amo
+     \/ \E n \in SeqToSet(Cmd(c).ins) : IsTimestamp(n) /\ Producers(n) \cap RanSet # {}     \* consumes the run time of a command that ran
+     \/ FeedersOf(c) \cap last.dskipped # {}         \* the value of one of its inputs flipped to "skipped" (consumers of a refused command run)
      \/ c \notin DOMAIN snap0                         \* never ran successfully (or its results were lost with the database)
      \/ snap0[c].sig # CmdSig(c)                      \* its definition changed
      \/ snap0[c].ins # DirectIn(c, fs)                \* what it reads is not what it read last time (inputs are final once it ran)
@@ -104,7 +115,7 @@ NoSpuriousRerun ==
 (* last ran with the current definition, on exactly the current state of its inputs and reads, and its outputs are as   *)
 (* it left them                                                                                                          *)
 SeenCurrent ==
-  (IsBuild /\ last.ok) =>
+  (IsBuild /\ last.ok /\ last.dskipped = {}) =>
      \A n \in ReachableFileOutputs(last.k) :
         LET c == ShellProducer(n) IN c \in DOMAIN snap /\ snap[c] = Snap(c, fs)
 =============================================================================
